@@ -594,11 +594,93 @@ def live_levels(P, R):
                     'inside the reordering loop')
 
 
+_BROAD = {'Exception', 'BaseException', '_NeedsReordering'}
+
+
+def _broad_handlers(tree):
+    """(try statement, handler) pairs whose handler would catch the
+    reordering request - it derives from `Exception` - raised by a call
+    in the `try` body, and does not pass it on with a bare `raise`."""
+    out = []
+    for t in ast.walk(tree):
+        if not isinstance(t, ast.Try):
+            continue
+        # (conversions and container built-ins raise nothing of the
+        # package)
+        plain = {'int', 'float', 'str', 'len', 'iter', 'next', 'getattr',
+                 'hasattr', 'isinstance', 'open', 'sorted', 'list', 'dict',
+                 'set', 'tuple', 'min', 'max', 'abs', 'repr', 'format'}
+        if not any(isinstance(x, ast.Call) and not (
+                isinstance(x.func, ast.Name) and x.func.id in plain)
+                for st in t.body for x in ast.walk(st)):
+            continue
+        for h in t.handlers:
+            types = [] if h.type is None else (
+                h.type.elts if isinstance(h.type, ast.Tuple) else [h.type])
+            names = {au.src(x).rsplit('.', 1)[-1] for x in types}
+            if h.type is not None and not names & _BROAD:
+                continue
+            last = h.body[-1] if h.body else None
+            if isinstance(last, ast.Raise) and last.exc is None:
+                continue
+            out.append((t, h))
+    return out
+
+
+def swallowed(P, R):
+    """No handler between an operation and `find_or_add` catches the
+    reordering request: the request is an exception (a subclass of
+    `Exception`) that must travel from `find_or_add` up to the wrapper of
+    `_try_to_reorder`; a `try ... except Exception` (or a bare `except`)
+    around a call, anywhere in the modules the operations run through,
+    stops it on the way and the operation fails instead of being
+    repeated."""
+    sample = ast.parse(
+        'def f(b):\n    try:\n        return b.quantify(1)\n'
+        '    except Exception as e:\n        raise ValueError(1) from e\n')
+    if len(_broad_handlers(sample)) != 1:
+        raise AnalysisError('R-REORD swallowed: the matcher does not see '
+                            'its own example')
+    n = 0
+    found = False
+    for modname in ('dd.bdd', 'dd._parser', 'dd._copy', 'dd.autoref',
+                    'dd._utils', 'dd._abc'):
+        u = P.units.get(modname)
+        if u is None:
+            continue
+        seen = set()
+        for f in sorted(u.funcs.values(),
+                        key=lambda f: -len(f.qualname)):
+          n += sum(1 for t in au.walk_no_defs(f.node)
+                   if isinstance(t, ast.Try))
+          for t, h in _broad_handlers(f.node):
+            if id(h) in seen:
+                continue
+            seen.add(id(h))
+            where = f.qualname
+            found = True
+            R.violation(
+                'R-REORD', 'swallowed', where,
+                au.src(h.type) if h.type is not None else 'except',
+                f'`except {au.src(h.type) if h.type is not None else ""}` '
+                f'at line {h.lineno} catches every `Exception` raised by '
+                'the calls in its `try` block, the reordering request '
+                'among them: raised under a decorated operation, the '
+                'request never reaches the wrapper that would reorder and '
+                'repeat the operation', unit=u.rel, line=h.lineno)
+    if not found:
+        R.holds('R-REORD', 'dd.bdd / dd._parser / dd._copy / dd.autoref',
+                f'{n} try statements: no handler around a call catches '
+                '`Exception`, `BaseException` or the request itself '
+                'without passing it on')
+
+
 def r_retry(P, R):
     au.set_parents(P.func('dd.bdd.BDD.cube').node)
     au.set_parents(P.func('dd.bdd.BDD.quantify').node)
     stale_levels(P, R)
     one_shot(P, R)
+    swallowed(P, R)
 r_retry.NAME = 'R-REORD(retry hazards)'
 
 
